@@ -21,14 +21,21 @@ structure Evo (w w' : World) : Prop where
   gsize : w'.guards.size = w.guards.size
   conds : w'.conds = w.conds
   dispatched : w'.dispatched = w.dispatched
+  /-- an event that keeps its handle keeps its time, action, subject and signal (only its priority can change) -/
+  stable : ∀ e' ∈ w'.ev.pending, e'.key ≤ w.ev.counter → ∃ e ∈ w.ev.pending, e.key = e'.key ∧ e.d = e'.d ∧ e.item = e'.item
 
 theorem Evo.refl (w : World) : Evo w w :=
-  ⟨rfl, id, id, Nat.le_refl _, rfl, rfl, rfl, rfl, rfl, rfl⟩
+  ⟨rfl, id, id, Nat.le_refl _, rfl, rfl, rfl, rfl, rfl, rfl, fun e he _ => ⟨e, he, rfl, rfl, rfl⟩⟩
 
 theorem Evo.trans {w w1 w2 : World} (h1 : Evo w w1) (h2 : Evo w1 w2) : Evo w w2 :=
   ⟨h2.now.trans h1.now, fun h => h2.evinv (h1.evinv h), fun h => h1.fault (h2.fault h),
    Nat.le_trans h1.counter h2.counter, h2.executed.trans h1.executed, h2.current.trans h1.current,
-   h2.psize.trans h1.psize, h2.gsize.trans h1.gsize, h2.conds.trans h1.conds, h2.dispatched.trans h1.dispatched⟩
+   h2.psize.trans h1.psize, h2.gsize.trans h1.gsize, h2.conds.trans h1.conds, h2.dispatched.trans h1.dispatched,
+   by
+    intro e2 he2 hk
+    obtain ⟨e1, he1, hk1, hd1, hi1⟩ := h2.stable e2 he2 (Nat.le_trans hk h1.counter)
+    obtain ⟨e0, he0, hk0, hd0, hi0⟩ := h1.stable e1 he1 (by rw [hk1]; exact hk)
+    exact ⟨e0, he0, hk0.trans hk1, hd0.trans hd1, hi0.trans hi1⟩⟩
 
 theorem Evo.wnow {w w' : World} (h : Evo w w') : w'.now = w.now := h.now
 
@@ -37,12 +44,13 @@ theorem Evo.same {w0 w w' : World} (h : Evo w0 w) (hev : w'.ev = w.ev) (hf : w'.
     (hp : w'.procs.size = w.procs.size) (hg : w'.guards.size = w.guards.size) (hc : w'.conds = w.conds)
     (hd : w'.dispatched = w.dispatched) : Evo w0 w' :=
   h.trans ⟨by rw [hev], by rw [hev]; exact id, by rw [hf]; exact id, by rw [hev]; exact Nat.le_refl _, by rw [hev],
-    by rw [hev], hp, hg, hc, hd⟩
+    by rw [hev], hp, hg, hc, hd, by rw [hev]; exact fun e he _ => ⟨e, he, rfl, rfl, rfl⟩⟩
 
 /-! ### atomic transformers -/
 
 theorem Evo.fail {w0 w : World} (h : Evo w0 w) (m : String) : Evo w0 (w.fail m) :=
-  h.trans ⟨by simp, by simp, fun hf => (fail_fault_none hf).elim, by simp, by simp, by simp, by simp, by simp, by simp, by simp⟩
+  h.trans ⟨by simp, by simp, fun hf => (fail_fault_none hf).elim, by simp, by simp, by simp, by simp, by simp, by simp, by simp,
+    by simp only [fail_ev]; exact fun e he _ => ⟨e, he, rfl, rfl, rfl⟩⟩
 
 theorem Evo.emit {w0 w : World} (h : Evo w0 w) (l : String) : Evo w0 (w.emit l) :=
   h.same rfl rfl rfl rfl rfl rfl
@@ -74,7 +82,12 @@ theorem Evo.setGuardQ {w0 w : World} (h : Evo w0 w) (g : Nat) (q : HH) : Evo w0 
 
 theorem Evo.pushEv {w0 w : World} (h : Evo w0 w) (a s : Nat) (sig t pri : Int) (ht : w.now ≤ t) :
     Evo w0 (pushEv w a s sig t pri) :=
-  h.trans ⟨rfl, pushEv_evinv a s sig t pri ht, id, by simp, rfl, rfl, rfl, rfl, rfl, rfl⟩
+  h.trans ⟨rfl, pushEv_evinv a s sig t pri ht, id, by simp, rfl, rfl, rfl, rfl, rfl, rfl, by
+    intro e he hk
+    simp only [pushEv_pending, List.mem_cons] at he
+    rcases he with rfl | he
+    · simp only [mkEv] at hk; omega
+    · exact ⟨e, he, rfl, rfl, rfl⟩⟩
 
 theorem Evo.sched_fst {w0 w : World} (h : Evo w0 w) (a s : Nat) (sig t pri : Int) : Evo w0 (sched w a s sig t pri).1 := by
   rcases sched_cases w a s sig t pri with ⟨ht, he⟩ | ⟨_, m, he⟩
@@ -83,7 +96,11 @@ theorem Evo.sched_fst {w0 w : World} (h : Evo w0 w) (a s : Nat) (sig t pri : Int
 
 theorem Evo.ofCanRel {w w' : World} (h : CanRel w w') : Evo w w' :=
   ⟨h.evnow, h.evinv, by rw [h.fault]; exact id, h.counter, h.executed, h.current, by rw [h.procs], by rw [h.guards],
-   h.conds, h.dispatched⟩
+   h.conds, h.dispatched, by
+    intro e he hk
+    rcases h.pend e he with hold | ⟨hc, _⟩
+    · exact ⟨e, hold, rfl, rfl, rfl⟩
+    · omega⟩
 
 theorem Evo.evCancel_fst {w0 w : World} (h : Evo w0 w) (k : Nat) : Evo w0 (evCancel w k).1 :=
   h.trans (Evo.ofCanRel (evCancel_rel w k))
